@@ -54,6 +54,16 @@ func TestLattice(t *testing.T) {
 			fn = fmt.Sprintf("lat%d.go", n)
 			files[fn] = hdr + fmt.Sprintf("// Lat%d: map value %s passed to func(string, %s).\nfunc Lat%d(ctx context.Context, m map[string]%s) error {\n\treturn cff.Parallel(ctx, cff.Map(func(k string, v %s) {}, m))\n}\n", n, e.expr, p.expr, n, e.expr, p.expr)
 			cases = append(cases, lcase{fn, "map-value", e.name, p.name, assignable(e.name, p.name)})
+			// the same pairs with the collection held in a value of a declared
+			// slice / map type (the verdict depends on the element types only)
+			n++
+			fn = fmt.Sprintf("lat%d.go", n)
+			files[fn] = hdr + fmt.Sprintf("type latS%d []%s\n\n// Lat%d: declared slice type of %s passed to func(%s).\nfunc Lat%d(ctx context.Context, xs latS%d) error {\n\treturn cff.Parallel(ctx, cff.Slice(func(v %s) {}, xs))\n}\n", n, e.expr, n, e.expr, p.expr, n, n, p.expr)
+			cases = append(cases, lcase{fn, "named-slice-elem", e.name, p.name, assignable(e.name, p.name)})
+			n++
+			fn = fmt.Sprintf("lat%d.go", n)
+			files[fn] = hdr + fmt.Sprintf("type latM%d map[string]%s\n\n// Lat%d: declared map type with value %s passed to func(string, %s).\nfunc Lat%d(ctx context.Context, m latM%d) error {\n\treturn cff.Parallel(ctx, cff.Map(func(k string, v %s) {}, m))\n}\n", n, e.expr, n, e.expr, p.expr, n, n, p.expr)
+			cases = append(cases, lcase{fn, "named-map-value", e.name, p.name, assignable(e.name, p.name)})
 			if comparable[e.name] {
 				n++
 				fn = fmt.Sprintf("lat%d.go", n)
